@@ -67,7 +67,8 @@ RunFrom(st, ops, i, kind, unscoped, single) ==
 (***************************************************************************)
 CONSTANTS Kind, MaxOps
 Existing == {1, 2, 3}
-ArgSets == {<<>>, <<1>>, <<2>>, <<3>>, <<0>>, <<1, 2>>, <<2, 0>>, <<3, 1>>, <<2, 2>>}
+\* (three targets: the driver passes the first alone and the other two together as one slice argument)
+ArgSets == {<<>>, <<1>>, <<2>>, <<3>>, <<0>>, <<1, 2>>, <<2, 0>>, <<3, 1>>, <<2, 2>>, <<1, 1, 2>>, <<3, 3, 0>>}
 Ops == {[op |-> o, p |-> p, ts |-> ts] : o \in {"append", "replace"}, p \in Parents,
                                         ts \in (IF Functional(Kind) THEN {x \in ArgSets : Len(x) = 1} ELSE ArgSets)}
        \cup {[op |-> "delete", p |-> p, ts |-> ts] : p \in Parents \cup {0}, ts \in {x \in ArgSets : Len(x) >= 1 /\ \A i \in DOMAIN x : x[i] # 0}}
